@@ -60,7 +60,19 @@ def _clashes():
     return out
 
 
-STRUCTURAL = CYCLES + _clashes() + [".equ a = low(a)\n.dw a", ".equ a = a * 2\n.if a\n.endif", ".set s = 1\n.set s = low(s2)\n.equ s2 = s2\n",
+def _long_lines():
+    """lines that do not parse (or do), longer than typical buffers, with multi-byte characters straddling every offset 56..72 and 120..136"""
+    out = []
+    for base in ("ldi r16,, ", "  .db 1,, ", "this is not assembly ", "lab: nop ; ", ".message \"", "  .db \""):
+        for off in list(range(56, 73)) + list(range(120, 137, 3)) + [255, 256, 1023]:
+            pad = "a" * max(0, off - len(base.encode()))
+            for ch in ("é", "€", "😀"):
+                out.append(base + pad + ch * 4 + ("\"" if base.endswith("\"") else ""))
+    out.append(".macro m\n ldi r16,, @0 " + "é" * 40 + "\n.endm\n m 1")
+    return out
+
+
+STRUCTURAL = CYCLES + _clashes() + _long_lines() + [".equ a = low(a)\n.dw a", ".equ a = a * 2\n.if a\n.endif", ".set s = 1\n.set s = low(s2)\n.equ s2 = s2\n",
     ".macro a\nb @0\n.endm\n.macro b\na @0\n.endm\na 1", ".macro a\n.if 1\na\n.endif\n.endm\na", ".macro a\n.dseg\n.cseg\na\n.endm\na",
     ".equ x = y\n.equ y = x\n.dw x", ".equ x = x\n.dw x", ".equ x = x + 1\nldi r16, x", ".set s = s\n", ".macro m\nm\n.endm\nm",
     ".macro a\nb\n.endm\n.macro b\na\n.endm\na", ".macro m\n.macro n\n.endm\nm", ".macro m\n.include \"x\"\n.endm\nm", ".macro m\n.includepath \"x\"\n.endm\nm", ".includepath \"x\"\n.includepath \"/\"\n.includepath \"\"\n",
